@@ -237,6 +237,310 @@ pub fn gen_pp2(rng: &mut Rng, s: &mut Session, thorough: bool) -> Pp2 {
     Pp2 { name, gc, k1: k1 as u16, k2: k2 as u16, f1, f2, g2 }
 }
 
+// ------------------------------------------------------------------ PairPos format 2 with device tables
+
+/// A format 2 subtable whose value records carry device / variation-index tables.  Cell `n`
+/// (row-major) stores `n` in record 1's x_advance; `flags[n]` bits 0-3 / 4-7 say which of
+/// record 1's / record 2's device fields (x_pla, y_pla, x_adv, y_adv) are non-null; every non-null
+/// field gets its own table (content id `ids[n][k]`), except that some ids are deliberately reused.
+pub struct Pp2Dev {
+    pub name: String,
+    pub gc: Vec<(u16, u16)>,
+    pub k1: usize,
+    pub k2: usize,
+    /// scalar field masks (bit 0 x_pla, 1 y_pla, 2 x_adv, 3 y_adv); record 1 always has x_adv
+    pub s1: u8,
+    pub s2: u8,
+    pub flags: Vec<u8>,
+    /// content ids per cell, 8 slots, 0 = null
+    pub ids: Vec<[u32; 8]>,
+}
+
+/// a device / variation-index table whose bytes are a function of `id` (distinct ids → distinct bytes)
+fn dev_table(id: u32) -> wl::DeviceOrVariationIndex {
+    match id % 3 {
+        0 => wl::VariationIndex::new((id / 50_000) as u16 + 1, (id % 50_000) as u16).into(),
+        1 => {
+            // 8-bit deltas, 3 sizes
+            let v = [(id & 0x7f) as i8 | 0x40, ((id >> 7) & 0xff) as u8 as i8, ((id >> 15) & 0xff) as u8 as i8];
+            wl::Device::new(9, 11, &v).into()
+        }
+        _ => {
+            // 4-bit deltas, 6 sizes (2 words)
+            let v: Vec<i8> = (0..6).map(|k| if k == 0 { -8 } else { (((id >> (3 * (k - 1))) & 7) as i8) - 4 }).collect();
+            wl::Device::new(12, 17, &v).into()
+        }
+    }
+}
+
+pub fn pp2_dev_case(s: &mut Session, sc: &Pp2Dev) {
+    use wg::ValueFormat as F;
+    const SC: [F; 4] = [F::X_PLACEMENT, F::Y_PLACEMENT, F::X_ADVANCE, F::Y_ADVANCE];
+    const DV: [F; 4] = [F::X_PLACEMENT_DEVICE, F::Y_PLACEMENT_DEVICE, F::X_ADVANCE_DEVICE, F::Y_ADVANCE_DEVICE];
+    let (mut d1, mut d2) = (0u8, 0u8);
+    for f in &sc.flags {
+        d1 |= f & 15;
+        d2 |= f >> 4;
+    }
+    let fmt = |sm: u8, dm: u8| {
+        let mut f = F::empty();
+        for k in 0..4 {
+            if sm >> k & 1 == 1 {
+                f |= SC[k];
+            }
+            if dm >> k & 1 == 1 {
+                f |= DV[k];
+            }
+        }
+        f
+    };
+    let (f1, f2) = (fmt(sc.s1, d1), fmt(sc.s2, d2));
+    let mut by_bytes: BTreeMap<Vec<u8>, u32> = BTreeMap::new();
+    let mut rec = |n: usize, sm: u8, ids: &[u32], f: F| {
+        let mut r = wg::ValueRecord::new();
+        let v = n as i16;
+        if sm & 1 != 0 {
+            r = r.with_x_placement(v.wrapping_mul(3));
+        }
+        if sm & 2 != 0 {
+            r = r.with_y_placement(-v);
+        }
+        if sm & 4 != 0 {
+            r = r.with_x_advance(v);
+        }
+        if sm & 8 != 0 {
+            r = r.with_y_advance(v ^ 0x55);
+        }
+        for (k, id) in ids.iter().enumerate() {
+            if *id == 0 {
+                continue;
+            }
+            let t = dev_table(*id);
+            if let Ok(b) = write_fonts::dump_table(&t) {
+                by_bytes.insert(b, *id);
+            }
+            r = match k {
+                0 => r.with_x_placement_device(t),
+                1 => r.with_y_placement_device(t),
+                2 => r.with_x_advance_device(t),
+                _ => r.with_y_advance_device(t),
+            };
+        }
+        r.with_explicit_value_format(f)
+    };
+    let rows: Vec<wg::Class1Record> = (0..sc.k1)
+        .map(|i| {
+            wg::Class1Record::new(
+                (0..sc.k2)
+                    .map(|j| {
+                        let n = i * sc.k2 + j;
+                        wg::Class2Record::new(rec(n, sc.s1, &sc.ids[n][..4], f1), rec(n, sc.s2, &sc.ids[n][4..], f2))
+                    })
+                    .collect(),
+            )
+        })
+        .collect();
+    let coverage: wl::CoverageTable = sc.gc.iter().map(|p| GlyphId16::new(p.0)).collect();
+    let cd1: wl::ClassDef = sc.gc.iter().map(|p| (GlyphId16::new(p.0), p.1)).collect();
+    let cd2: wl::ClassDef = (0..sc.k2 as u16).skip(1).map(|c| (GlyphId16::new(30_000 + c), c)).collect();
+    let (Ok(cov_b), Ok(cd1_b)) = (write_fonts::dump_table(&coverage), write_fonts::dump_table(&cd1)) else { return };
+    let lookup = wg::PositionLookup::Pair(wl::Lookup::new(
+        wl::LookupFlag::empty(),
+        vec![wg::PairPos::format_2(coverage, cd1, cd2, rows)],
+    ));
+    let gpos = wg::Gpos::new(Default::default(), Default::default(), wl::LookupList::new(vec![lookup]));
+    let name = || sc.name.clone();
+    // the unsplit subtable's own offset list (content ids of the linked device objects, in order)
+    let g0 = VGraph::from_table(&gpos);
+    let objs0: BTreeMap<u64, ObjView> = g0.objects().into_iter().map(|o| (o.id, o)).collect();
+    let Some(lk0) = objs0.values().find(|o| o.type_name == "GPOS2Pair") else { return };
+    let st0 = &objs0[&lk0.links[0].2];
+    let content_id = |objs: &BTreeMap<u64, ObjView>, id: u64| -> u32 { by_bytes.get(&objs[&id].bytes).copied().unwrap_or(u32::MAX) };
+    let dev_ids: Vec<u32> = st0.links.iter().skip(3).map(|l| content_id(&objs0, l.2)).collect();
+    let expect_ids: Vec<u32> = sc.ids.iter().flat_map(|c| c.iter().copied().filter(|x| *x != 0)).collect();
+    s.oracle("ppf2-devs:offset-list-in-writing-order", dev_ids == expect_ids, name, || {
+        format!("{} offsets, {} non-null device fields", dev_ids.len(), expect_ids.len())
+    });
+    drop(g0);
+    let mut g = VGraph::from_table(&gpos);
+    let Some(lookup_id) = g.objects().iter().find(|o| o.type_name == "GPOS2Pair").map(|o| o.id) else { return };
+    let packed = catch(|| g.pack_objects());
+    let flags_s = join(&sc.flags.iter().map(|f| *f as u32).collect::<Vec<_>>());
+    let mk_req = |pts: &[usize]| {
+        format!(
+            "ppf2.devs {} | {} | {} | {} | {} | {}",
+            render_cov_bytes(&cov_b),
+            render_cd_bytes(&cd1_b),
+            sc.k2,
+            join(pts),
+            join(&dev_ids),
+            flags_s
+        )
+    };
+    let ok = match packed {
+        Err(msg) => {
+            s.oracle("ppf2-devs:split-does-not-panic", false, name, || msg.clone());
+            return;
+        }
+        Ok(ok) => ok,
+    };
+    if !ok {
+        s.count("ppf2-devs:packing-failed-after-split");
+    }
+    let objs: BTreeMap<u64, ObjView> = g.objects().into_iter().map(|o| (o.id, o)).collect();
+    let subs = subtables(&objs, lookup_id);
+    if subs.len() <= 1 {
+        s.count("ppf2-devs:no-split");
+        return;
+    }
+    s.count("ppf2-devs:split-triggered");
+    s.count(&format!("ppf2-devs:split-into-{}", subs.len().min(8)));
+    let n1 = [(sc.s1.count_ones() as usize), (d1.count_ones() as usize)];
+    let n2 = [(sc.s2.count_ones() as usize), (d2.count_ones() as usize)];
+    let stride = 2 * (n1[0] + n1[1] + n2[0] + n2[1]);
+    // byte position of record 1's x_advance within a cell
+    let xadv_at = 2 * (sc.s1 & 3).count_ones() as usize;
+    let mut parts = vec![];
+    let mut points = vec![];
+    let mut acc = 0usize;
+    let mut bad: Option<String> = None;
+    let mut n_cells = 0usize;
+    for (pi, st) in subs.iter().enumerate() {
+        let cov = link_at(st, 2).map(|id| render_cov_bytes(&objs[&id].bytes)).unwrap_or("?".into());
+        let cd = link_at(st, 8).map(|id| render_cd_bytes(&objs[&id].bytes)).unwrap_or("?".into());
+        let c1 = u16_at(&st.bytes, 12) as usize;
+        let c2 = u16_at(&st.bytes, 14) as usize;
+        acc += c1;
+        points.push(acc);
+        let mut rows_s = vec![];
+        for i in 0..c1 {
+            let mut cells_s = vec![];
+            for j in 0..c2 {
+                let at = 16 + (i * c2 + j) * stride;
+                let n = u16_at(&st.bytes, at + xadv_at) as usize;
+                let mut got = [0u32; 8];
+                // record 1 devices, then record 2 devices, in format order
+                let mut pos = at + 2 * n1[0];
+                for k in 0..4 {
+                    if d1 >> k & 1 == 1 {
+                        got[k] = link_at(st, pos as u32).map(|id| content_id(&objs, id)).unwrap_or(0);
+                        pos += 2;
+                    }
+                }
+                pos += 2 * n2[0];
+                for k in 0..4 {
+                    if d2 >> k & 1 == 1 {
+                        got[4 + k] = link_at(st, pos as u32).map(|id| content_id(&objs, id)).unwrap_or(0);
+                        pos += 2;
+                    }
+                }
+                n_cells += 1;
+                if bad.is_none() && sc.ids.get(n) != Some(&got) {
+                    bad = Some(format!(
+                        "piece {pi} row {i} col {j} (cell {n}): device links {:?}, the unsplit subtable has {:?}",
+                        got,
+                        sc.ids.get(n)
+                    ));
+                }
+                cells_s.push(format!("{n} {}", join(&got)));
+            }
+            rows_s.push(cells_s.join(" "));
+        }
+        parts.push(format!("{cov} ; {cd} ; {}", rows_s.join(" , ")));
+    }
+    // model-independent: every cell of every piece links the device tables of the cell it came from
+    s.oracle("ppf2-devs:split-keeps-device-links", bad.is_none() && n_cells == sc.k1 * sc.k2, name, || {
+        bad.clone().unwrap_or_else(|| format!("{n_cells} cells after the split, {} before", sc.k1 * sc.k2))
+    });
+    s.case("ppf2.devs", mk_req(&points), parts.join(" | "));
+}
+
+pub fn gen_pp2_dev(rng: &mut Rng, s: &mut Session, _thorough: bool) -> Pp2Dev {
+    let k2 = rng.range(2, 12) as usize;
+    let s1 = 4 | rng.below(16) as u8;
+    let s2 = rng.below(16) as u8;
+    // device field masks and per-cell density
+    let style = rng.below(5);
+    let (m1, m2): (u8, u8) = match style {
+        0 => (15, 15),
+        1 => (rng.range(1, 15) as u8, rng.range(1, 15) as u8),
+        2 => (0, rng.range(1, 15) as u8),
+        3 => (rng.range(1, 15) as u8, 0),
+        _ => (15, rng.range(1, 15) as u8),
+    };
+    let density = *rng.pick(&[100u64, 100, 70, 30]);
+    let share = *rng.pick(&[0u64, 0, 5, 30]);
+    s.count(&format!("ppf2-devs:gen:style{style}:density{density}:share{share}"));
+    // ~14 bytes per device + the offsets: aim at 1.2 – 3.5 × 64 KiB
+    let per_cell = 2 * ((s1.count_ones() + s2.count_ones() + m1.count_ones() + m2.count_ones()) as usize)
+        + 12 * (m1.count_ones() + m2.count_ones()) as usize * density as usize / 100;
+    let target = *rng.pick(&[80_000usize, 110_000, 150_000, 230_000]);
+    let k1 = (target / (per_cell.max(4) * k2)).clamp(3, 1500);
+    let mut flags = vec![];
+    let mut ids = vec![];
+    let mut next = 1u32;
+    let mut used: Vec<u32> = vec![];
+    for _ in 0..k1 * k2 {
+        let mut f = 0u8;
+        let mut c = [0u32; 8];
+        for k in 0..8 {
+            let m = if k < 4 { m1 >> k & 1 } else { m2 >> (k - 4) & 1 };
+            if m == 1 && rng.chance(density, 100) {
+                f |= 1 << k;
+                c[k] = if !used.is_empty() && rng.chance(share, 100) {
+                    *rng.pick(&used)
+                } else {
+                    next += 1;
+                    next
+                };
+                used.push(c[k]);
+                if used.len() > 64 {
+                    used.remove(0);
+                }
+            }
+        }
+        flags.push(f);
+        ids.push(c);
+    }
+    // make sure the union masks are what the style says (first cell carries everything)
+    {
+        let mut c = [0u32; 8];
+        let mut f = 0u8;
+        for k in 0..8 {
+            let m = if k < 4 { m1 >> k & 1 } else { m2 >> (k - 4) & 1 };
+            if m == 1 {
+                next += 1;
+                c[k] = next;
+                f |= 1 << k;
+            }
+        }
+        flags[0] = f;
+        ids[0] = c;
+    }
+    let per = rng.range(1, 3) as usize;
+    let (gst, gbase) = (rng.below(4), rng.below(20_000) as u32);
+    let glyphs = glyph_run(rng, k1 * per, gst, gbase);
+    let pattern = rng.below(2);
+    let gc: Vec<(u16, u16)> = glyphs
+        .iter()
+        .enumerate()
+        .map(|(i, g)| (*g, if pattern == 0 { (i * k1 / glyphs.len()).min(k1 - 1) } else { i % k1 } as u16))
+        .collect();
+    Pp2Dev {
+        name: format!(
+            "pp2dev k1={k1} k2={k2} scalars={s1:#x}/{s2:#x} devmasks={m1:#x}/{m2:#x} density={density}% share={share}% devices={}",
+            next
+        ),
+        gc,
+        k1,
+        k2,
+        s1,
+        s2,
+        flags,
+        ids,
+    }
+}
+
 // ------------------------------------------------------------------ MarkBasePos
 
 pub struct Mb {
@@ -413,5 +717,14 @@ pub fn run(cfg: &Config, s: &mut Session, rng: &mut Rng) {
     for _ in 0..(if t { 200 } else { 24 }) {
         let sc = gen_mb(rng, s, t);
         mb_case(s, &sc);
+    }
+}
+
+/// runs after everything else so that the random stream of the older groups is unchanged
+pub fn run_devs(cfg: &Config, s: &mut Session, rng: &mut Rng) {
+    let t = cfg.thorough();
+    for _ in 0..(if t { 160 } else { 24 }) {
+        let sc = gen_pp2_dev(rng, s, t);
+        pp2_dev_case(s, &sc);
     }
 }
